@@ -428,12 +428,12 @@ for _g in ('single', 'chain', 'glob'):
 _reg(make_nomatch(), {'C16': Q}, 600, 'nomatch', 'include pattern without a match: ValueError naming file and line, nothing touched; symbolic: spelling, endings', cost=30)
 _reg(make_recursive('chain', 'bare', twin=True), {'C16': Q}, 300, 'recursive', 'vacuity twin', twin=True, cost=5)
 _reg(make_single('single', twin=True), {'C16': Q}, 300, 'single', 'vacuity twin', twin=True, cost=5)
-QUICK_CONTENT = {('lf', 10), ('crlf', 10), ('crlf', 12), ('nofinal', 30)}
+QUICK_CONTENT = {('lf', 10), ('crlf', 10), ('crlf', 12), ('nofinal', 4)}     # ('nofinal', 30) extends the account name: > 2300 paths, thorough only
 for _t, _text in CONTENT.items():
     for _pos in content_positions(_text):
         for _api in ('edit_file', 'edit_file_recursive'):
             quick = (_t, _pos) in QUICK_CONTENT and _api == 'edit_file'
-            _reg(make_content(_t, _pos, _api), {'C16': Q if quick else T}, 900 if quick else 2400, 'content',
+            _reg(make_content(_t, _pos, _api), {'C16': Q if quick else T}, 600 if quick else 3000, 'content',
                  'file text %r with 1 symbolic code point (full Unicode without surrogates) inserted at offset %d, read/parsed/edited/printed/written through %s'
                  % (_text, _pos, _api), cost=300)
 _reg(make_content('lf', 10, 'edit_file', twin=True), {'C16': Q}, 300, 'content', 'vacuity twin', twin=True, cost=5)
